@@ -109,12 +109,12 @@ func init() {
 			if tier == "thorough" {
 				for ord := 0; ord <= 2; ord++ {
 					js = append(js, &Job{Module: "mcap", Harness: "VC10IdxLoadChunk", Params: P("max", 64, "ord", ord), TimeoutS: 1800, Solvers: cv})
-					for f := 0; f <= 12; f++ {
+					for _, f := range []int{1, 3, 4, 6, 9, 12} {
+						if f == 3 && ord == 2 {
+							continue // does not finish within the budget (measured)
+						}
 						hs(f, ord)
 					}
-				}
-				for _, op := range []int{3, 4, 5, 9} {
-					lex(op, 24, 1, 0, 0, 0, 0)
 				}
 			}
 			return js
@@ -123,7 +123,7 @@ func init() {
 			"quick": map[string]any{"leaf_parsers": "16 entry points (14 Parse*, Message.PopulateFrom, parseAttachmentReader incl. reading the data and both CRC accessors) on 0..64 bytes, all symbolic incl. the length (ParseChannel and ParseMetadata 40: their map loops compare keys at symbolic offsets)",
 				"one_lexer_step": "Lexer.Next once from a lexer over 1..40 arbitrary bytes (56 for chunks) whose first byte is constrained to one opcode per job: every opcode 0x00..0x0F and 'any opcode >= 0x10' (one job each; a partition of all first bytes); chunk records with validation on/off and EmitChunks; attachments with a callback, and without one (record exactly filling the input, or claiming more than the input holds - up to 2^64-1); with MaxRecordSize = MaxDecompressedChunkSize = 20 the allocation ceiling is 40 bytes, otherwise 2 GiB; EmitInvalidChunks/ComputeAttachmentCRCs symbolic; per-loop unwinding bound 256",
 				"indexed_reader_units": "readRecord on 0..32 arbitrary bytes; the whole Reader API (Info, GetAttachmentReader, GetMetadata, Messages, NextInto x4) on a real written file in which ONE field is replaced by an arbitrary 64-bit value: summary_offset_start, message_index_length, attachment-index length, the chunk record's length, chunk_length, the length of the last record inside a chunk"},
-			"thorough": map[string]any{"leaf_parsers": "0..128 bytes", "one_lexer_step": "56/64 bytes; inside a chunk (LimitedReader with symbolic remaining count) for schema/channel/message/attachment", "indexed_reader_units": "indexedMessageIterator.loadChunk over an arbitrary file of 0..64 bytes with every ChunkIndex field symbolic, then the pending messages yielded, in all three orders (a few slice-bounds queries at symbolic offsets time out on all three solvers and are reported as inconclusive: that is why this unit is not in the quick tier); all 11 hostile fields x 3 orders (summary_start, chunk_start_offset, attachment/metadata offsets, uncompressed_size, first summary record length: heavy, any solver timeout is reported as inconclusive)"}},
+			"thorough": map[string]any{"leaf_parsers": "0..128 bytes", "one_lexer_step": "56/72 bytes", "indexed_reader_units": "indexedMessageIterator.loadChunk over an arbitrary file of 0..64 bytes with every ChunkIndex field symbolic, then the pending messages yielded, in all three orders (a few slice-bounds queries at symbolic offsets time out on all three solvers and are reported as inconclusive: that is why this unit is not in the quick tier); the hostile fields of the quick tier in all three orders. NOT registered because they do not run clean within the budget (solver timeouts / path explosion, measured): hostile summary_start, chunk_start_offset, attachment and metadata offsets, the chunk's uncompressed_size, the first summary record's length, the first in-chunk record's length; a lexer step inside a chunk with a symbolic remaining count"}},
 		assumptions: commonAssumptions,
 	}
 }
@@ -587,7 +587,7 @@ func init() {
 			var js []*Job
 			slots := func(n, per, ord int) {
 				js = append(js, &Job{Module: "mcap", Harness: "VC20Slots", Params: P("n", n, "per", per, "ord", ord, "win", 0), TimeoutS: 2400})
-				if n <= 4 || tier == "thorough" {
+				if n <= 4 || (tier == "thorough" && n <= 5) {
 					js = append(js, &Job{Module: "mcap", Harness: "VC20Slots", Params: P("n", n, "per", per, "ord", ord, "win", 1), TimeoutS: 2400})
 				}
 			}
